@@ -119,6 +119,9 @@ impl HandshakeService {
 
     /// Remove outbound substream from [`HandshakeService`].
     pub fn remove_outbound(&mut self, peer: &PeerId) -> Option<Substream> {
+        // a handshake result still queued for the removed substream must not be attributed to a
+        // later substream of the same peer and direction
+        self.ready.retain(|(p, d, _)| !(p == peer && *d == Direction::Outbound));
         self.substreams
             .remove(&(*peer, Direction::Outbound))
             .map(|(substream, _, _)| substream)
@@ -126,6 +129,8 @@ impl HandshakeService {
 
     /// Remove inbound substream from [`HandshakeService`].
     pub fn remove_inbound(&mut self, peer: &PeerId) -> Option<Substream> {
+        // see `remove_outbound()`
+        self.ready.retain(|(p, d, _)| !(p == peer && *d == Direction::Inbound));
         self.substreams
             .remove(&(*peer, Direction::Inbound))
             .map(|(substream, _, _)| substream)
@@ -198,6 +203,14 @@ impl HandshakeService {
         }
 
         None
+    }
+}
+
+#[cfg(litep2p_verif)]
+impl HandshakeService {
+    /// Verification hook: the negotiation timer of one entry.
+    pub(crate) fn verif_timer(&mut self, peer: &PeerId, direction: Direction) -> Option<&mut Delay> {
+        self.substreams.get_mut(&(*peer, direction)).map(|entry| &mut entry.1)
     }
 }
 
